@@ -67,7 +67,7 @@ func TestC04_Reconnects(t *testing.T) {
 		mkPlan := func() sessPlan {
 			p := noPlan()
 			if junk {
-				p.status, p.bookmark, p.unknown = map[int]bool{}, map[int]bool{}, map[int]bool{}
+				p.status, p.bookmark, p.unknown, p.errobj = map[int]bool{}, map[int]bool{}, map[int]bool{}, map[int]bool{}
 				for i := 0; i < 80; i++ {
 					switch rapid.IntRange(0, 11).Draw(t, "frame") {
 					case 0:
@@ -76,6 +76,8 @@ func TestC04_Reconnects(t *testing.T) {
 						p.bookmark[i] = true
 					case 2:
 						p.unknown[i] = true
+					case 3:
+						p.errobj[i] = true
 					}
 				}
 			}
